@@ -224,6 +224,10 @@ def vectorise(rng, spec, n):
         for k, v in list(l["kw"].items()):
             if k in VECTORISABLE and isinstance(v, (int, float)) and not isinstance(v, bool) and rng.random() < 0.3:
                 l["kw"][k] = [round(float(v) * (1.0 + 0.25 * i) + 0.01 * i, 6) for i in range(n)]
+            elif k == "misalignment" and isinstance(v, list) and len(v) == 2 and all(isinstance(x, (int, float)) for x in v) and rng.random() < 0.3:
+                # a vectorised (n, 2) parameter: written as a NESTED list
+                l["kw"][k] = [[round(float(v[0]) + 1e-4 * i, 6), round(float(v[1]) - 2e-4 * i, 6)] for i in range(n)]
+                l["nested_list"] = True
 
 
 def uniquify(spec, seen=None):
@@ -652,7 +656,9 @@ def classify(lat, obs):
     if obs["save_exc"]:
         if nested and obs["save_exc"] == "UnboundLocalError":
             known.append("F11")
-        elif collides(lat) and obs["save_exc"] in ("TypeError", "AttributeError"):
+        elif collides(lat) and (obs["save_exc"] in ("TypeError", "AttributeError")
+                                or any(i > 0 and nd["name"] == "to_lattice_json" for i, nd in enumerate(nodes(lat)))):
+            # (a child named to_lattice_json IS what segment.to_lattice_json(path) calls: its forward() raises whatever it raises on a str)
             known.append("F81")                   # a child's name clobbered an attribute / method of the Segment: it cannot be saved
         else:
             bad.append(f"to_lattice_json raised {obs['save_exc']}")
@@ -891,6 +897,8 @@ def main(tier, replay=None):
         run.add_case(["lat", lat], nl >= 2)
         run.count("nested" if has_nested(lat) else "flat")
         run.count("vectorised" if vec else "scalar")
+        if any(l.get("nested_list") for l in leaves(lat)):
+            run.count("nested_list_parameter")
         run.count("retuned_after_construction" if is_retuned(lat) else "as_constructed")
         if is_hostile(lat):
             run.count("hostile_names")
